@@ -52,3 +52,24 @@ package utils
 //@   assumed
 //@   pure
 //@ end
+
+// C02 (a numeric literal compares by VALUE with stored numbers of every kind):
+// the enclosure built for a numeric literal carries three views of the number —
+// signed, unsigned, float — and the comparison code picks the view by the kind of
+// the STORED value.  For an integer literal the float view is the float of the
+// integer AS TYPED (a negative literal's float view is negative, never the float
+// of its two's-complement bit pattern), and the other integer view has the same
+// bits.  GetNumberTypeAndVal (text parsing) is outside the string model: its
+// results are arbitrary here.
+//@ func GetNumberTypeAndVal
+//@   assumed
+//@   pure
+//@   note frame only (ASSUMED): parses the text of a number
+//@ end
+//@ func enclosureFromJsonNumber
+//@   props C02
+//@   requires dte != nil
+//@   modifies dte.StringVal, dte.Dtype, dte.SignedVal, dte.UnsignedVal, dte.FloatVal
+//@   ensures [a-signed-literals-float-view-is-the-float-of-the-signed-value] implies(dte.Dtype == SS_DT_SIGNED_NUM && old(dte.Dtype) != SS_DT_SIGNED_NUM, feq(dte.FloatVal, float64(dte.SignedVal)) && dte.UnsignedVal == uint64(dte.SignedVal))
+//@   ensures [an-unsigned-literals-float-view-is-the-float-of-the-unsigned-value] implies(dte.Dtype == SS_DT_UNSIGNED_NUM && old(dte.Dtype) != SS_DT_UNSIGNED_NUM, feq(dte.FloatVal, float64(dte.UnsignedVal)) && dte.SignedVal == int64(dte.UnsignedVal))
+//@ end
